@@ -86,10 +86,12 @@ def generate_dispatch(ov, arganal):
     def lookup_for(x):
         return ndb[arganal.lookup_for(x)]
 
-    for name in spr + spo + pr + po + kr:
+    for name in spr + spo + pr + po + kr + ko:
         ndb.register(name)
 
     mv = ndb.gensym(desired_name="method")
+    kwv = ndb.gensym(desired_name="KWARGS")
+    tv = ndb.gensym(desired_name="TARGS")
 
     for name in spr + spo:
         if name in spr:
@@ -131,13 +133,13 @@ def generate_dispatch(ov, arganal):
 
     for name in ko:
         args.append(f"{name}=MISSING")
-        kwargsstar = "**KWARGS"
-        targsstar = "*TARGS"
-        inits.add("KWARGS = {}")
-        inits.add("TARGS = []")
+        kwargsstar = f"**{kwv}"
+        targsstar = f"*{tv}"
+        inits.add(f"{kwv} = {{}}")
+        inits.add(f"{tv} = []")
         body.append(f"if {name} is not MISSING:")
-        body.append(f"    KWARGS[{name!r}] = {name}")
-        body.append(f"    TARGS.append(({name!r}, {lookup_for(name)}({name})))")
+        body.append(f"    {kwv}[{name!r}] = {name}")
+        body.append(f"    {tv}.append(({name!r}, {lookup_for(name)}({name})))")
 
     posargs.append(kwargsstar)
     lookup.append(targsstar)
